@@ -20,6 +20,16 @@ def edge_atom(b, src, label, depth=12, named_leaf=False):
         return None
     e = b.expr(t["d"], depth, named_leaf)
     if e[0] == "discr":
+        # two-variant enums (Option / Result / ControlFlow): name the `otherwise` arm by its discriminant
+        if label == "otherwise" and len(t["cases"]) == 1 and int(t["cases"][0][0]) in (0, 1):
+            ty = ""
+            sd = b.single_def(op_local(t["d"])) if op_local(t["d"]) is not None else None
+            if sd and sd[0] == "st":
+                pl = b.blocks[sd[1]]["st"][sd[2]]["rv"].get("pl")
+                if pl is not None and not pl["p"]:
+                    ty = b.lty(pl["l"])
+            if ty.startswith(("core::option::Option<", "core::result::Result<", "core::ops::ControlFlow<")):
+                label = 1 - int(t["cases"][0][0])
         return (e, label)
     truth = None
     vals = [c[0] for c in t["cases"]]
@@ -594,6 +604,23 @@ def limit(facts):
                     good_exit = (xi, usz[0], from_len)
             o.check(b, "limit-exit", b.line, good_exit is not None, "Err(..IxLimit) exit dominated by max()!=!0 and end()==new_index",
                     "no Err(..IxLimit) exit guarded by `max().index() != !0 && end() == new_index` found")
+            if good_exit is not None and "stable_graph" in sfx:
+                # a StableGraph at full physical length can still reuse a vacant slot: the limit error needs an empty free list
+                fl = False
+                for (e, truth, src) in dom_atoms(b, good_exit[0], named_leaf=True):
+                    s_ = str(e)
+                    if ("free_edge" in s_ or "free_node" in s_) and isinstance(e, tuple) and e[0] == "bin" and e[1] in ("Eq", "Ne"):
+                        fl = True
+                    if isinstance(e, tuple) and e[0] in ("local", "arg") and b.lname(e[1]) in ("reuse_vacant",):
+                        fl = True
+                if not fl:
+                    for (src, tgt, label) in b.dominating_edges(good_exit[0]):
+                        de = b.expr(b.blocks[src]["term"]["d"], 8)
+                        if "free_edge" in str(de) or "free_node" in str(de):
+                            fl = True
+                o.check(b, "limit-needs-empty-freelist", b.line, fl, "the IxLimit error is only reachable when the free list is empty",
+                        "the index-type limit error is reachable although a vacant slot is on the free list: a u8 StableGraph whose edge array is "
+                        "full but has a vacancy could never take another edge")
             if good_exit is not None:
                 o.check(b, "index-from-len", b.line, good_exit[2], "new_index = <Ix>::new(self.%s.len())" % field,
                         "the index compared with end() does not derive from self.%s.len()" % field)
